@@ -8,6 +8,7 @@ import (
 	"math/big"
 	"sort"
 	"strings"
+	"sync"
 )
 
 type SortKind int
@@ -27,10 +28,15 @@ type Sort struct {
 	Name  string
 }
 
-var sortCache = map[string]*Sort{}
+var (
+	sortCache = map[string]*Sort{}
+	sortMu    sync.Mutex
+)
 
 func internSort(s *Sort) *Sort {
 	k := s.String()
+	sortMu.Lock()
+	defer sortMu.Unlock()
 	if c, ok := sortCache[k]; ok {
 		return c
 	}
@@ -187,6 +193,12 @@ func (c *Ctx) Const(name string, s *Sort) *Term {
 func (c *Ctx) Fresh(prefix string, s *Sort) *Term {
 	c.fresh[prefix]++
 	return c.Const(fmt.Sprintf("%s!%d", prefix, c.fresh[prefix]), s)
+}
+
+// BoundVarNamed interns a bound variable by name: alpha-equivalent quantified formulas built
+// from the same source expression become the identical term.
+func (c *Ctx) BoundVarNamed(name string, s *Sort) *Term {
+	return c.intern(&Term{Op: "bound", Name: name, Sort: s})
 }
 
 func (c *Ctx) BoundVar(name string, s *Sort) *Term {
@@ -945,11 +957,13 @@ func (c *Ctx) Query(assumes []*Term, goal *Term, getValues []*Term, timeoutMs in
 	head.WriteString("(set-option :produce-models true)\n")
 	head.WriteString("(set-logic ALL)\n")
 	var sn []string
+	sortMu.Lock()
 	for _, so := range sortCache {
 		if so.Kind == SUnint {
 			sn = append(sn, so.Name)
 		}
 	}
+	sortMu.Unlock()
 	sort.Strings(sn)
 	for _, s := range sn {
 		fmt.Fprintf(head, "(declare-sort %s 0)\n", s)
